@@ -346,11 +346,27 @@ func extractPackedSplit(c *core.Ctx) *packedSplit {
 		if !ok {
 			return nil, "loop header does not test the cursor"
 		}
-		bo, ok := binop(ifi.Cond, token.LSS)
-		if !ok || bo.X != ssa.Value(cl.cursor) || !l.Blocks[l.Header.Succs[0]] {
+		// the stay-in-loop condition, normalised to `cursor < bound`: `c < b` / `b > c` with the true edge inside the loop,
+		// or `c >= b` / `b <= c` with the true edge leaving it (for { if c >= b { break } ... })
+		var bound ssa.Value
+		if bo, ok := ifi.Cond.(*ssa.BinOp); ok {
+			stayTrue := l.Blocks[l.Header.Succs[0]] && !l.Blocks[l.Header.Succs[1]]
+			stayFalse := l.Blocks[l.Header.Succs[1]] && !l.Blocks[l.Header.Succs[0]]
+			switch {
+			case bo.Op == token.LSS && bo.X == ssa.Value(cl.cursor) && stayTrue:
+				bound = bo.Y
+			case bo.Op == token.GTR && bo.Y == ssa.Value(cl.cursor) && stayTrue:
+				bound = bo.X
+			case bo.Op == token.GEQ && bo.X == ssa.Value(cl.cursor) && stayFalse:
+				bound = bo.Y
+			case bo.Op == token.LEQ && bo.Y == ssa.Value(cl.cursor) && stayFalse:
+				bound = bo.X
+			}
+		}
+		if bound == nil {
 			return nil, "the loop does not run while begin < len(septets)"
 		}
-		d := p.LinOf(bo.Y).Add(p.LenOf(cl.call.Call.Args[0]), -1)
+		d := p.LinOf(bound).Add(p.LenOf(cl.call.Call.Args[0]), -1)
 		if !d.IsConst() || d.C != 0 {
 			return nil, "the loop bound is not the length of the septet buffer passed to the boundary helper"
 		}
